@@ -24,6 +24,10 @@ func init() {
 				Edits: []Edit{{File: "response/netconf.go", Old: "\tpatterns := getNetconfPatterns()\n\n\tr.Failed = &OperationError{", New: "\tpatterns := getNetconfPatterns()\n\n\tif patterns.rpcErrors.Find(b) == nil {\n\t\treturn\n\t}\n\n\tr.Failed = &OperationError{"}}},
 			{ID: "C02-delimiter-before-preference", Desc: "the delimiter is installed before the preferred-version override", Rule: "C02/found-netconf-version",
 				Edits: []Edit{{File: "driver/netconf/capabilities.go", Old: "\tswitch d.SelectedVersion {\n\tcase V1Dot0:\n\t\td.Channel.PromptPattern = ncPatterns.v1Dot0Delim\n\tcase V1Dot1:\n\t\td.Channel.PromptPattern = ncPatterns.v1Dot1Delim\n\t}\n\n\treturn nil", New: "\tif d.ServerHasCapability(v1Dot1Cap) {\n\t\td.Channel.PromptPattern = ncPatterns.v1Dot1Delim\n\t} else {\n\t\td.Channel.PromptPattern = ncPatterns.v1Dot0Delim\n\t}\n\n\treturn nil"}}},
+			{ID: "C02-eom-open-ended", Desc: "1.1 end-of-chunks pattern loses its end-of-line anchor", Rule: "C02/eom-pattern-shape",
+				Edits: []Edit{{File: "driver/netconf/driver.go", Old: "v1Dot1Delim = `(?m)^##$`", New: "v1Dot1Delim = `(?m)^##`"}}},
+			{ID: "C02-eom-1dot0-short", Desc: "1.0 end-of-message pattern accepts a single ]]>", Rule: "C02/eom-pattern-shape",
+				Edits: []Edit{{File: "driver/netconf/driver.go", Old: "\tv1Dot0Delim = `]]>]]>`", New: "\tv1Dot0Delim = `(]]>)+`"}}},
 			{ID: "C02-eom-window", Desc: "reader looks for the end-of-message marker in the last 1000 bytes only", Rule: "C02/eom-whole-buffer",
 				Edits: []Edit{{File: "driver/netconf/read.go", Old: "\t\tfor d.Channel.PromptPattern.Match(b) { //nolint: nestif", New: "\t\ttail := b\n\t\tif len(tail) > d.Channel.PromptSearchDepth {\n\t\t\ttail = tail[len(tail)-d.Channel.PromptSearchDepth:]\n\t\t}\n\n\t\tfor d.Channel.PromptPattern.Match(tail) { //nolint: nestif"},
 					{File: "driver/netconf/read.go", Old: "\t\t\t\tb = []byte(ss[1])\n\n\t\t\t\tcontinue", New: "\t\t\t\tb = []byte(ss[1])\n\t\t\t\ttail = b\n\n\t\t\t\tcontinue"},
@@ -74,6 +78,8 @@ func runC02(c *Ctx, r *Report) {
 	r.Rule("C02/provenance", "every value stored to Result derives from RawResult through slicing, append, bytes.Trim* and conversion only", 2)
 
 	checkEOMWholeBuffer(c, r)
+	r.Rule("C02/eom-pattern-shape", "the end-of-message patterns the reader waits for are RFC 6242's delimiters and nothing shorter: the 1.1 pattern is bounded by line boundaries on both sides of ##, the 1.0 pattern requires the whole literal ]]>]]>", 2)
+	checkEOMPatternShape(c, r, "C02/eom-pattern-shape")
 	rec := c.LookupFunc("response", "NetconfResponse", "Record")
 	if rec == nil {
 		r.Anchor("C02/bounds", "(*response.NetconfResponse).Record")
